@@ -21,6 +21,8 @@ LIT_CFG = """CONSTANTS
   LitIds = {ids}
   MaxInd = {maxind}
   MaxLines = {maxlines}
+  NameChars <- GenNameChars
+  CharOrd <- GenCharOrd
 INIT Init
 NEXT Next
 INVARIANT Refines
@@ -176,6 +178,9 @@ def run(replay=None):
     for r in recs:
         r["_layouts"] = [(0, False), (3, False), (2, False)]
     T.judge(V, recs, C.seed())
+    # code -> spec: every parse the repository's own DIP tests perform, validated against machine and ideal
+    from . import dip_tracer as DT
+    ntr, rtr = DT.judge_testsuite(C, V, wd)
     # B/C. literals
     nl = 41
     lruns = [C.run_tlc(wd, "DipLitGen", LIT_CFG.format(ids="{" + ",".join(str(i) for i in range(1, nl + 1)) + "}", maxind=1, maxlines=2), extra=["-continue"]),
@@ -209,7 +214,7 @@ def run(replay=None):
     nontrivial = {json.dumps(r["text"]) for r in recs if len(r["text"]) >= 3 and any(ln["ind"] > 0 for ln in r["text"])}
     V.cov.update({
         "states": sum(r.distinct for r in runs + lruns), "transitions": sum(r.generated for r in runs + lruns),
-        "traces_validated_against_impl": len(recs) + len(uniq), "evaluations": 3 * (len(recs) + len(uniq)),
+        "traces_validated_against_impl": len(recs) + ntr, "testsuite_parses_validated": ntr + len(uniq), "evaluations": 3 * (len(recs) + len(uniq)),
         "distinct_nontrivial": len(nontrivial) + len(litforms),
         "rule": "A: every text of <= 4/5 lines over {2 groups, 4 definitions incl. dotted names} x indent 0..3 with consistent indentation "
                 "(TLC, exhaustive) + random texts of 5-9 lines, each parsed under 3 indent-width/comment layouts; B: every literal notation of "
